@@ -703,7 +703,7 @@ benign('C08', 'per-listener removal over a snapshot of the items',
        [('pubsub', "                for et in list(self._listeners.keys()):\n                    self.remove_listener(et, listener)",
          "                for et, _subs in list(self._listeners.items()):\n                    self.remove_listener(et, listener)")])
 seeded('C13', 'set_seed overwrites a zero original seed', 'R12.3',
-       [('streams', "        self._seed: int = seed\n        self._random.seed(seed)", "        if not self._original_seed:\n            self._original_seed = seed\n        self._seed: int = seed\n        self._random.seed(seed)")], key='original seed 0')
+       [('streams', "        self._seed: int = seed\n        self._random.seed(seed)", "        if not self._original_seed:\n            self._original_seed = seed\n        self._seed: int = seed\n        self._random.seed(seed)")], key='writes-original-seed')
 
 # ===================================================================================================== round 10 additions
 seeded('C15', 'erf_inv forgets the sign of its argument', 'R15.10',
